@@ -9,7 +9,10 @@
 //          residual is not improved by any of a finite set of small perturbations of the rotation (and of the scale)
 // Bounds calibrated on the clean tree at seeds 1-3 (see tools/props/c12.py).   c12_residue <seed> <n>
 #include <ImathMatrixAlgo.cpp>
+#include <ImathEuler.h>
 #include "c12_structured.h"
+#include <cstring>
+#include <algorithm>
 #include <cstdio>
 #include <random>
 #include <string>
@@ -34,7 +37,8 @@ static void check (const std::string& what, double value, double bound, const st
     if (!(value <= bound))
     {
         ++fails;
-        if (fails <= 40) printf ("RESIDUE-FAIL %s value=%.6g bound=%.6g %s\n", what.c_str (), value, bound, ctx.c_str ());
+        static std::map<std::string, int> shown; // cap per check, so that one failing check cannot hide the others
+        if (++shown[what] <= 4) printf ("RESIDUE-FAIL %s value=%.6g bound=%.6g %s\n", what.c_str (), value, bound, ctx.c_str ());
     }
 }
 
@@ -125,7 +129,8 @@ template <int n, class M> static LD detLD (const M& A)
     return det;
 }
 
-static const double CSVD = 64, CEIG = 64;
+// calibrated on the clean tree (seeds 1-5 quick, seeds 1-2 thorough): each constant is about 4x the largest value observed
+static const double CSVD = 64, CSVD_V = 40, CEIG = 24, CFAR = 32, CPROC = 12, CPROC_DEG = 256, CPROC_FAR = 12;
 
 template <int n, class T> static void svdRun (const typename MT<n>::template M<T>& A, const std::string& name);
 template <int n, class T> static void svdCase (int cls)
@@ -145,7 +150,7 @@ template <int n, class T> static void svdRun (const typename MT<n>::template M<T
         std::string ctx = "class=" + name + " type=" + tag + " force=" + std::to_string (force) + " A=" + show (A, n);
         hits["svd:" + name]++;
         check ("svd:U-orthonormal", (double) orthErr<n> (Um), (double) (CSVD * eps), ctx);
-        check ("svd:V-orthonormal", (double) orthErr<n> (Vm), (double) (CSVD * eps), ctx);
+        check ("svd:V-orthonormal", (double) orthErr<n> (Vm), (double) (CSVD_V * eps), ctx);
         LD a = maxAbs<n> (A), e = 0;
         for (int i = 0; i < n; ++i) for (int j = 0; j < n; ++j)
         {
@@ -243,11 +248,31 @@ static void smallRot (int axis, LD ang, LD R[3][3])
     R[a][a] = cosl (ang); R[a][b] = sinl (ang); R[b][a] = -sinl (ang); R[b][b] = cosl (ang);
 }
 
-template <class T> static void procrustesCase (int shape, bool weighted, bool doScale, bool noisy)
+// shape 7 = "far-lattice": the same with every number exactly representable at T (points = integer centre + multiples of 2^-6, the
+// rotation a signed permutation matrix, scale 1 or 2, integer translation), so that an exact transform exists for the FLOAT inputs
+// too: procrustes computes in double whatever T is, hence the bounds of this class use eps(double) for both element types.
+// shape 6 = "far-cloud": a cloud of extent `ext` whose centre is `ratio * ext` away from the origin (ratio 1e3 .. 2^24 at double,
+// 1e2 .. 1e4 at float).  The transform is determined by the CENTRED coordinates, so an implementation that accumulates the
+// covariance from uncentred points (algebraically the same because the other factor is centred) loses ratio^2 * eps instead of
+// ratio * eps: the recovered rotation is compared with the true one with a bound proportional to ratio * eps (the rounding of
+// the inputs themselves), and the mapped points with the usual bound.
+template <class T> static void procrustesCase (int shape, bool weighted, bool doScale, bool noisy, double ratio = 0)
 {
     const LD eps = std::numeric_limits<T>::epsilon ();
-    static const char* SH[] = {"general", "collinear", "coplanar", "single", "pair", "duplicate"};
-    size_t N = shape == 3 ? 1 : shape == 4 ? 2 : (size_t) I (3, 12);
+    static const char* SH[] = {"general", "collinear", "coplanar", "single", "pair", "duplicate", "far-cloud", "far-lattice"};
+    size_t N = shape == 3 ? 1 : shape == 4 ? 2 : shape >= 6 ? (size_t) I (4, 12) : (size_t) I (3, 12);
+    LD ext = 1, ctr[3] = {0, 0, 0};
+    if (shape == 6)
+    {
+        ext = U (0.5, 2) * powl (10.0L, I (-2, 2));
+        LD d[3] = {U (-1, 1), U (-1, 1), U (-1, 1)}, l = sqrtl (d[0] * d[0] + d[1] * d[1] + d[2] * d[2]) + 1e-30L;
+        for (int j = 0; j < 3; ++j) ctr[j] = d[j] / l * ratio * ext;
+    }
+    if (shape == 7)
+    {
+        LD d[3] = {U (-1, 1), U (-1, 1), U (-1, 1)}, l = std::max (fabsl (d[0]), std::max (fabsl (d[1]), fabsl (d[2]))) + 1e-30L;
+        for (int j = 0; j < 3; ++j) ctr[j] = floorl (d[j] / l * ratio);
+    }
     std::vector<Vec3<T>> A (N), B (N);
     std::vector<T> w;
     LD dir[3] = {U (-1, 1), U (-1, 1), U (-1, 1)}, dir2[3] = {U (-1, 1), U (-1, 1), U (-1, 1)}, org[3] = {U (-5, 5), U (-5, 5), U (-5, 5)};
@@ -256,7 +281,7 @@ template <class T> static void procrustesCase (int shape, bool weighted, bool do
         LD a = U (-3, 3), b = U (-3, 3);
         for (int j = 0; j < 3; ++j)
         {
-            LD v = shape == 1 ? org[j] + a * dir[j] : shape == 2 ? org[j] + a * dir[j] + b * dir2[j] : U (-5, 5);
+            LD v = shape == 1 ? org[j] + a * dir[j] : shape == 2 ? org[j] + a * dir[j] + b * dir2[j] : shape == 6 ? ctr[j] + ext * U (-0.5, 0.5) : shape == 7 ? ctr[j] + (LD) I (-32, 32) / 64 : U (-5, 5);
             A[p][j] = (T) v;
         }
         if (shape == 5 && p > 0 && (p & 1)) A[p] = A[p - 1];
@@ -267,17 +292,30 @@ template <class T> static void procrustesCase (int shape, bool weighted, bool do
     for (int i = 0; i < 3; ++i) for (int j = 0; j < 3; ++j) x.R[i][j] = Q[i][j];
     for (int j = 0; j < 3; ++j) x.t[j] = U (-10, 10);
     x.s = doScale ? U (0.25, 4) : 1;
+    if (shape == 7)
+    {
+        // signed permutation with determinant +1
+        int pm[3] = {0, 1, 2}; std::shuffle (pm, pm + 3, g);
+        LD sg[3] = {(g () & 1) ? 1.0L : -1.0L, (g () & 1) ? 1.0L : -1.0L, 1};
+        for (int i = 0; i < 3; ++i) for (int j = 0; j < 3; ++j) x.R[i][j] = pm[i] == j ? sg[i] : 0;
+        LD RR[3][3]; for (int i = 0; i < 3; ++i) for (int j = 0; j < 3; ++j) RR[i][j] = x.R[i][j];
+        Matrix33<double> R3 (RR[0][0], RR[0][1], RR[0][2], RR[1][0], RR[1][1], RR[1][2], RR[2][0], RR[2][1], RR[2][2]);
+        if (detLD<3> (R3) < 0) for (int j = 0; j < 3; ++j) x.R[2][j] = -x.R[2][j];
+        for (int j = 0; j < 3; ++j) x.t[j] = I (-10, 10);
+        x.s = doScale ? 2 : 1;
+    }
     LD scaleB = 0;
     for (size_t p = 0; p < N; ++p)
     {
         LD a[3] = {(LD) A[p][0], (LD) A[p][1], (LD) A[p][2]}, q[3];
         apply (x, a, q);
         for (int j = 0; j < 3; ++j) { B[p][j] = (T) (q[j] + (noisy ? U (-0.05, 0.05) : 0)); scaleB = std::max (scaleB, fabsl (q[j])); }
+        if (shape == 7) for (int j = 0; j < 3; ++j) if ((LD) B[p][j] != q[j] || (LD) A[p][j] != a[j]) { hits["procrustes:far-lattice:inexact-skipped"]++; return; }
     }
     M44d M = weighted ? procrustesRotationAndTranslation (A.data (), B.data (), w.data (), N, doScale)
                       : procrustesRotationAndTranslation (A.data (), B.data (), N, doScale);
     char cb[200];
-    snprintf (cb, sizeof cb, "shape=%s N=%zu type=%s weighted=%d scale=%d noisy=%d", SH[shape], N, sizeof (T) == 4 ? "f" : "d", weighted, doScale, noisy);
+    snprintf (cb, sizeof cb, "shape=%s N=%zu type=%s weighted=%d scale=%d noisy=%d offset/extent=%.3g extent=%.3g", SH[shape], N, sizeof (T) == 4 ? "f" : "d", weighted, doScale, noisy, ratio, (double) ext);
     std::string ctx = cb;
     ctx += " A0=(" + std::to_string ((double) A[0][0]) + "," + std::to_string ((double) A[0][1]) + "," + std::to_string ((double) A[0][2]) + ")";
     hits[std::string ("procrustes:") + SH[shape] + (noisy ? ":noisy" : ":exact")]++;
@@ -294,9 +332,34 @@ template <class T> static void procrustesCase (int shape, bool weighted, bool do
             }
             check ("procrustes:rotation-orthonormal", (double) e, 64 * 2.220446049250313e-16, ctx);
             check ("procrustes:det-positive", detLD<3> (M) > 0 ? 0 : 1, 0, ctx);
-            if (!doScale) check ("procrustes:unit-scale", (double) fabsl (s - 1), 64 * 2.220446049250313e-16, ctx);
+            if (!doScale) check ("procrustes:unit-scale", (double) fabsl (s - 1), 32 * 2.220446049250313e-16, ctx);
         }
         check ("procrustes:affine", (M[0][3] == 0 && M[1][3] == 0 && M[2][3] == 0 && M[3][3] == 1) ? 0 : 1, 0, ctx);
+    }
+    if (!noisy && shape == 7)
+    {
+        const LD epsd = std::numeric_limits<double>::epsilon ();
+        LD e = 0, ep = 0;
+        for (int i = 0; i < 3; ++i) for (int j = 0; j < 3; ++j) e = std::max (e, fabsl ((LD) M[i][j] - x.s * x.R[i][j]));
+        check ("procrustes:far-lattice-linear-part-recovered", (double) e, (double) (epsd * (ratio + 1)), ctx);
+        for (size_t p = 0; p < N; ++p)
+        {
+            if (weighted && w[p] == 0) continue;
+            for (int j = 0; j < 3; ++j)
+            {
+                LD q = (LD) M[3][j]; for (int i = 0; i < 3; ++i) q += (LD) A[p][i] * (LD) M[i][j];
+                ep = std::max (ep, fabsl (q - (LD) B[p][j]));
+            }
+        }
+        check ("procrustes:far-lattice-points-mapped", (double) ep, (double) (8 * epsd * (scaleB + 1)), ctx);
+    }
+    if (!noisy && shape == 6)
+    {
+        // the cloud is in general position: the transform is unique, so the linear part itself must be the true s*R, up to the
+        // rounding of the inputs (eps * offset) seen from the cloud's own scale (extent): eps * offset / extent
+        LD e = 0;
+        for (int i = 0; i < 3; ++i) for (int j = 0; j < 3; ++j) e = std::max (e, fabsl ((LD) M[i][j] - x.s * x.R[i][j]));
+        check ("procrustes:far-cloud-linear-part-recovered", (double) e, (double) (CFAR * eps * (ratio + 1) * (doScale ? 4 : 1)), ctx);
     }
     if (!noisy)
     {
@@ -312,7 +375,10 @@ template <class T> static void procrustesCase (int shape, bool weighted, bool do
                 e = std::max (e, fabsl (q - (LD) B[p][j]));
             }
         }
-        check ("procrustes:exact-transform-recovered", (double) e, (double) (64 * eps * (scaleB + 1) * (doScale ? 8 : 1)), ctx);
+        if (shape == 6) check ("procrustes:far-cloud-points-mapped", (double) e, (double) (CPROC_FAR * eps * (scaleB + 1) * (doScale ? 8 : 1)), ctx);
+        else if (shape == 0) check ("procrustes:exact-transform-recovered", (double) e, (double) (CPROC * eps * (scaleB + 1) * (doScale ? 8 : 1)), ctx);
+        // collinear / coplanar (incl. nearly collinear triangles) / single / pair / duplicates: heavy-tailed conditioning
+        else if (shape != 7) check ("procrustes:exact-transform-recovered-degenerate-shapes", (double) e, (double) (CPROC_DEG * eps * (scaleB + 1) * (doScale ? 8 : 1)), ctx);
     }
     else if (N >= 3)
     {
@@ -330,6 +396,168 @@ template <class T> static void procrustesCase (int shape, bool weighted, bool do
             }
         check ("procrustes:no-perturbation-improves", (double) worstGain, sizeof (T) == 4 ? 1e-5 : 1e-9, ctx);
     }
+}
+
+// ---------------------------------------------------------------- SHRT family: accuracy of the factors on floats
+// M = S*H*R*T built in long double from known factors (graded conditioning of the scales 10^0..10^12 at double, 10^0..10^5 at
+// float; negative scales; zero / random shear; random rotation) and rounded to T.  The real extractSHRT / sansScaling /
+// sansScalingAndShear / removeScaling (3-D and 2-D) and the two other extractSHRT overloads are called at T; the factors are
+// recomposed in long double and compared with M ROW BY ROW (Gram-Schmidt normalises every row by its own length, so the error
+// is relative to the row, whatever the ratio of the scales): max_j |recomposed_ij - M_ij| <= C * eps(T) * (1+|h|)^2 * max_j |M_ij|.
+static const double CSHRT = 16, CSHRT_ORTH = 8;
+static const char* SHRT_CLS[] = {"graded", "reflected", "no-shear", "unit"};
+template <class T> static void rotXYZ (const Vec3<T>& r, LD R[3][3])
+{
+    LD cx = cosl ((LD) r.x), sx = sinl ((LD) r.x), cy = cosl ((LD) r.y), sy = sinl ((LD) r.y), cz = cosl ((LD) r.z), sz = sinl ((LD) r.z);
+    R[0][0] = cz * cy; R[0][1] = sz * cy; R[0][2] = -sy;
+    R[1][0] = -sz * cx + cz * sy * sx; R[1][1] = cz * cx + sz * sy * sx; R[1][2] = cy * sx;
+    R[2][0] = sz * sx + cz * sy * cx; R[2][1] = -cz * sx + sz * sy * cx; R[2][2] = cy * cx;
+}
+// worst row-relative deviation of S*H*R (3x3, long double) and the translation row from M
+template <class T, class RR> static LD shrtErr3 (const Matrix44<T>& M, const Vec3<T>& s, const Vec3<T>& h, const RR& R, const Vec3<T>& t)
+{
+    LD L[3][3], e = 0;
+    for (int j = 0; j < 3; ++j)
+    {
+        L[0][j] = (LD) s.x * (LD) R[0][j];
+        L[1][j] = (LD) s.y * ((LD) h.x * (LD) R[0][j] + (LD) R[1][j]);
+        L[2][j] = (LD) s.z * ((LD) h.y * (LD) R[0][j] + (LD) h.z * (LD) R[1][j] + (LD) R[2][j]);
+    }
+    for (int i = 0; i < 3; ++i)
+    {
+        LD n = 0, d = 0;
+        for (int j = 0; j < 3; ++j) { n = std::max (n, fabsl ((LD) M[i][j])); d = std::max (d, fabsl (L[i][j] - (LD) M[i][j])); }
+        e = std::max (e, n > 0 ? d / n : d);
+    }
+    for (int j = 0; j < 3; ++j) if ((LD) t[j] != (LD) M[3][j]) e = std::max (e, (LD) 1);
+    return e;
+}
+static bool shrtFixed = false; // the deterministic witness: unit scale, no shear, XYZ angles (0.3, 0.5, -0.7), translation (1, 2, 3)
+template <class T> static void shrtCase3 (int cls)
+{
+    const LD eps = std::numeric_limits<T>::epsilon ();
+    const int kmax = sizeof (T) == 4 ? 5 : 12;
+    int k = cls == 3 ? 0 : I (0, kmax);
+    LD s[3], h[3] = {U (-2, 2), U (-2, 2), U (-2, 2)}, R[3][3], t[3] = {U (-10, 10), U (-10, 10), U (-10, 10)};
+    for (int i = 0; i < 3; ++i) s[i] = cls == 3 ? 1 : U (0.5, 2) * powl (10.0L, I (-k, k));
+    if (cls == 1) for (int i = 0; i < 3; ++i) if (g () & 1) s[i] = -s[i];
+    if (cls == 2 || cls == 3) h[0] = h[1] = h[2] = 0;
+    { Vec3<double> a (U (-3.1, 3.1), U (-1.5, 1.5), U (-3.1, 3.1)); if (shrtFixed) { a = Vec3<double> (0.3, 0.5, -0.7); t[0] = 1; t[1] = 2; t[2] = 3; } rotXYZ (a, R); }
+    Matrix44<T> M;
+    for (int j = 0; j < 3; ++j)
+    {
+        M[0][j] = (T) (s[0] * R[0][j]);
+        M[1][j] = (T) (s[1] * (h[0] * R[0][j] + R[1][j]));
+        M[2][j] = (T) (s[2] * (h[1] * R[0][j] + h[2] * R[1][j] + R[2][j]));
+        M[3][j] = (T) t[j];
+    }
+    LD hh = 1 + std::max (fabsl (h[0]), std::max (fabsl (h[1]), fabsl (h[2])));
+    const double bound = (double) (CSHRT * eps * hh * hh);
+    std::string tag = sizeof (T) == 4 ? "f" : "d";
+    std::string ctx = std::string ("class=") + SHRT_CLS[cls] + " type=" + tag + "44 decades=" + std::to_string (k) + " M=" + show (M, 4);
+    hits[std::string ("shrt3:") + SHRT_CLS[cls]]++;
+    Vec3<T> es, eh, er, et;
+    if (!extractSHRT (M, es, eh, er, et, false)) { check ("shrt:well-conditioned-input-accepted", 1, 0, ctx); return; }
+    check ("shrt:well-conditioned-input-accepted", 0, 0, ctx);
+    { LD Rr[3][3]; rotXYZ (er, Rr); check ("shrt:extractSHRT-recompose", (double) shrtErr3 (M, es, eh, Rr, et), bound, ctx); }
+    // sansScalingAndShear = R*T: orthonormal, det +1, translation row kept; S*H*that = M
+    {
+        Matrix44<T> Q = sansScalingAndShear (M, false);
+        LD e = 0;
+        for (int i = 0; i < 3; ++i) for (int j = 0; j < 3; ++j)
+        {
+            LD d = 0; for (int c = 0; c < 3; ++c) d += (LD) Q[i][c] * (LD) Q[j][c];
+            e = std::max (e, fabsl (d - (i == j)));
+        }
+        check ("shrt:R-orthonormal", (double) e, (double) (CSHRT_ORTH * eps * hh * hh), ctx);
+        Matrix33<T> Q3 (Q[0][0], Q[0][1], Q[0][2], Q[1][0], Q[1][1], Q[1][2], Q[2][0], Q[2][1], Q[2][2]);
+        check ("shrt:detR=+1", (double) fabsl (detLD<3> (Q3) - 1), (double) (CSHRT_ORTH * eps * hh * hh), ctx);
+        check ("shrt:sansScalingAndShear-recompose", (double) shrtErr3 (M, es, eh, Q, Vec3<T> (Q[3][0], Q[3][1], Q[3][2])), bound, ctx);
+    }
+    // sansScaling = H*R*T (rebuilt with M.rotate (extractEulerXYZ R)): S * that = M;  removeScaling leaves the same matrix
+    {
+        Matrix44<T> Q = sansScaling (M, false), P = M;
+        bool ok = removeScaling (P, false);
+        LD e = 0;
+        for (int i = 0; i < 3; ++i)
+        {
+            LD n = 0, d = 0;
+            for (int j = 0; j < 3; ++j) { n = std::max (n, fabsl ((LD) M[i][j])); d = std::max (d, fabsl ((LD) es[i] * (LD) Q[i][j] - (LD) M[i][j])); }
+            e = std::max (e, n > 0 ? d / n : d);
+        }
+        for (int j = 0; j < 3; ++j) if (Q[3][j] != M[3][j]) e = 1;
+        check ("shrt:sansScaling-recompose", (double) e, bound, ctx);
+        check ("shrt:removeScaling=sansScaling", (ok && memcmp (&P, &Q, sizeof P) == 0) ? 0 : 1, 0, ctx);
+    }
+    // the two other overloads: Euler<T>& r (recompose through r.toMatrix44 ()), and rOrder (through Euler<T> (r, rOrder, XYZLayout))
+    static const typename Euler<T>::Order ORD[] = {Euler<T>::XYZ, Euler<T>::XZY, Euler<T>::YZX, Euler<T>::YXZ, Euler<T>::ZXY, Euler<T>::ZYX,
+                                                   Euler<T>::ZXZ, Euler<T>::XYX, Euler<T>::XYZr, Euler<T>::ZYXr, Euler<T>::YXYr};
+    static const char* ORDN[] = {"XYZ", "XZY", "YZX", "YXZ", "ZXY", "ZYX", "ZXZ", "XYX", "XYZr", "ZYXr", "YXYr"};
+    for (int oi = 0; oi < 11; ++oi)
+    {
+        std::string octx = std::string ("class=") + (oi == 0 ? "order-XYZ" : "order-other-than-XYZ") + " order=" + ORDN[oi] + " gen=" + SHRT_CLS[cls] + " type=" + tag + "44 M=" + show (M, 4);
+        Vec3<T> s2, h2, t2, r3;
+        Euler<T> re (ORD[oi]);
+        bool ok1 = extractSHRT (M, s2, h2, re, t2, false);
+        check ("shrt:euler-overload-keeps-order", (ok1 && re.order () == ORD[oi]) ? 0 : 1, 0, octx);
+        check ("shrt:euler-overload-recompose", (double) shrtErr3 (M, s2, h2, re.toMatrix44 (), t2), bound, octx);
+        bool ok2 = extractSHRT (M, s2, h2, r3, t2, false, ORD[oi]);
+        Euler<T> rb (r3, ORD[oi], Euler<T>::XYZLayout);
+        check ("shrt:rOrder-overload-recompose", ok2 ? (double) shrtErr3 (M, s2, h2, rb.toMatrix44 (), t2) : 1.0, bound, octx);
+        hits[std::string ("shrt3:order-") + ORDN[oi]]++;
+    }
+}
+template <class T> static void shrtCase2 (int cls)
+{
+    const LD eps = std::numeric_limits<T>::epsilon ();
+    const int kmax = sizeof (T) == 4 ? 5 : 12;
+    int k = cls == 3 ? 0 : I (0, kmax);
+    LD s[2], h = U (-2, 2), a = U (-3.1, 3.1), t[2] = {U (-10, 10), U (-10, 10)};
+    for (int i = 0; i < 2; ++i) s[i] = cls == 3 ? 1 : U (0.5, 2) * powl (10.0L, I (-k, k));
+    if (cls == 1) for (int i = 0; i < 2; ++i) if (g () & 1) s[i] = -s[i];
+    if (cls == 2 || cls == 3) h = 0;
+    LD R[2][2] = {{cosl (a), sinl (a)}, {-sinl (a), cosl (a)}};
+    Matrix33<T> M;
+    for (int j = 0; j < 2; ++j) { M[0][j] = (T) (s[0] * R[0][j]); M[1][j] = (T) (s[1] * (h * R[0][j] + R[1][j])); M[2][j] = (T) t[j]; }
+    LD hh = 1 + fabsl (h);
+    const double bound = (double) (CSHRT * eps * hh * hh);
+    std::string ctx = std::string ("class=") + SHRT_CLS[cls] + " type=" + (sizeof (T) == 4 ? "f" : "d") + "33 decades=" + std::to_string (k) + " M=" + show (M, 3);
+    hits[std::string ("shrt2:") + SHRT_CLS[cls]]++;
+    Vec2<T> es, et; T eh = 0, er = 0;
+    if (!extractSHRT (M, es, eh, er, et, false)) { check ("shrt:well-conditioned-input-accepted", 1, 0, ctx); return; }
+    check ("shrt:well-conditioned-input-accepted", 0, 0, ctx);
+    auto err2 = [&] (LD r00, LD r01, LD r10, LD r11, LD sy_h) {
+        LD L[2][2] = {{(LD) es.x * r00, (LD) es.x * r01}, {(LD) es.y * (sy_h * r00 + r10), (LD) es.y * (sy_h * r01 + r11)}}, e = 0;
+        for (int i = 0; i < 2; ++i)
+        {
+            LD n = 0, d = 0;
+            for (int j = 0; j < 2; ++j) { n = std::max (n, fabsl ((LD) M[i][j])); d = std::max (d, fabsl (L[i][j] - (LD) M[i][j])); }
+            e = std::max (e, n > 0 ? d / n : d);
+        }
+        return e;
+    };
+    LD e = err2 (cosl ((LD) er), sinl ((LD) er), -sinl ((LD) er), cosl ((LD) er), (LD) eh);
+    if (et.x != M[2][0] || et.y != M[2][1]) e = 1;
+    check ("shrt:extractSHRT-recompose", (double) e, bound, ctx);
+    Matrix33<T> Q = sansScalingAndShear (M, false);
+    check ("shrt:sansScalingAndShear-recompose", (double) err2 (Q[0][0], Q[0][1], Q[1][0], Q[1][1], (LD) eh), bound, ctx);
+    LD o = std::max (std::max (fabsl ((LD) Q[0][0] * Q[0][0] + (LD) Q[0][1] * Q[0][1] - 1), fabsl ((LD) Q[1][0] * Q[1][0] + (LD) Q[1][1] * Q[1][1] - 1)),
+                     fabsl ((LD) Q[0][0] * Q[1][0] + (LD) Q[0][1] * Q[1][1]));
+    check ("shrt:R-orthonormal", (double) o, (double) (CSHRT_ORTH * eps * hh * hh), ctx);
+    check ("shrt:detR=+1", (double) fabsl ((LD) Q[0][0] * Q[1][1] - (LD) Q[0][1] * Q[1][0] - 1), (double) (CSHRT_ORTH * eps * hh * hh), ctx);
+    // sansScaling = H*R*T: S * that = M (translation row included: the repaired 2-D defect)
+    Matrix33<T> Hq = sansScaling (M, false), P = M;
+    bool ok = removeScaling (P, false);
+    LD e2 = 0;
+    for (int i = 0; i < 2; ++i)
+    {
+        LD n = 0, d = 0;
+        for (int j = 0; j < 2; ++j) { n = std::max (n, fabsl ((LD) M[i][j])); d = std::max (d, fabsl ((LD) es[i] * (LD) Hq[i][j] - (LD) M[i][j])); }
+        e2 = std::max (e2, n > 0 ? d / n : d);
+    }
+    if (Hq[2][0] != M[2][0] || Hq[2][1] != M[2][1]) e2 = 1;
+    check ("shrt:sansScaling-recompose", (double) e2, bound, ctx);
+    check ("shrt:removeScaling=sansScaling", (ok && memcmp (&P, &Hq, sizeof P) == 0) ? 0 : 1, 0, ctx);
 }
 
 // deterministic structured sparse matrices (c12_structured.h): every tier, float and double, force on/off (inside svdRun)
@@ -351,6 +579,7 @@ int main (int argc, char** argv)
     int n = argc > 2 ? atoi (argv[2]) : 200;
     g.seed (seed * 6364136223846793005ul + 1442695040888963407ul);
     structuredCases<3, double> (); structuredCases<4, double> (); structuredCases<3, float> (); structuredCases<4, float> ();
+    shrtFixed = true; shrtCase3<double> (3); shrtCase3<float> (3); shrtFixed = false;
     for (int i = 0; i < n; ++i)
     {
         int cls = i % 8;
@@ -359,6 +588,15 @@ int main (int argc, char** argv)
         int shape = i % 6; bool weighted = (i / 6) & 1, doScale = (i / 12) & 1, noisy = (i / 24) & 1;
         procrustesCase<double> (shape, weighted, doScale, noisy);
         procrustesCase<float> (shape, weighted, doScale, noisy);
+        {
+            static const double RD[] = {1e3, 1e4, 1e5, 1e6, 16777216.0}, RF[] = {1e2, 1e3, 1e4};
+            procrustesCase<double> (6, (i / 5) & 1, (i / 10) & 1, false, RD[i % 5]);
+            procrustesCase<float> (6, (i / 3) & 1, (i / 6) & 1, false, RF[i % 3]);
+            static const double LDb[] = {65536.0, 1048576.0, 16777216.0}, LF[] = {256.0, 4096.0, 65536.0};
+            procrustesCase<double> (7, (i / 3) & 1, (i / 6) & 1, false, LDb[i % 3]);
+            procrustesCase<float> (7, (i / 3) & 1, (i / 6) & 1, false, LF[i % 3]);
+        }
+        shrtCase3<double> (i % 4); shrtCase3<float> (i % 4); shrtCase2<double> (i % 4); shrtCase2<float> (i % 4);
     }
     printf ("RESIDUE evals=%ld failures=%ld", evals, fails);
     for (auto& kv : worst) printf (" %s=%.4g", kv.first.c_str (), kv.second);
